@@ -27,7 +27,7 @@ def install_trade_spy():
         except Exception:
             qq = float("nan")
         if qq == qq and abs(qq) >= 1e-16:
-            _spy["log"].append((self, qq, None if price is None else float(price)))
+            _spy["log"].append((self, qq, None if price is None else float(price), str(self.parent.now)))
         return r
 
     bt.core.SecurityBase.transact = transact
@@ -37,10 +37,15 @@ def install_trade_spy():
 def trades_of(t):
     """Executed trades of the real tree (paper copies excluded) since the last clear."""
     out = []
-    for node, q, price in _spy["log"]:
+    for node, q, price, _when in _spy["log"]:
         if node.root is t.root:
             out.append((node.full_name, node.parent.full_name, node.name, q, price, float(node.multiplier)))
     return out
+
+
+def trades_of_root(root):
+    """(sec full name, owner full name, ticker, q, custom price, multiplier, date label)"""
+    return [(n.full_name, n.parent.full_name, n.name, q, price, float(n.multiplier), when) for n, q, price, when in _spy["log"] if n.root is root]
 
 
 def clear_trades():
@@ -292,3 +297,46 @@ def per_date(t, want, label, i, scale):
             if not ref.near(val(name, "prices", i), exp, 100.0):
                 out.append({"rule": "index_recurrence_date", "expected": {"date": label, "price": exp}, "observed": val(name, "prices", i)})
     return out
+
+
+# ----------------------------------------------------------------------
+# in-flight context of SecurityBase.allocate (to decide, when a sizing guard fires,
+# whether the request was in fact satisfiable - the known sizing defect, C05)
+
+_alloc = {"installed": False, "stack": [], "last_failed": None}
+
+
+def install_alloc_spy():
+    if _alloc["installed"]:
+        return
+    bt = rt.bt()
+    orig = bt.core.SecurityBase.allocate
+
+    def allocate(self, amount, update=True):
+        ctx = {"node": self, "amount": float(amount)}
+        _alloc["stack"].append(ctx)
+        try:
+            return orig(self, amount, update)
+        except BaseException:
+            if _alloc["last_failed"] is None or _alloc["last_failed"].get("done"):
+                c = dict(ctx)
+                n = self
+                try:
+                    c.update(position=float(n._position), price=float(n._price), mult=float(n.multiplier), integer=bool(n.integer_positions), spread=float(n._bidoffer) if n._bidoffer_set else None, name=n.full_name, when=str(n.parent.now))
+                except Exception:
+                    pass
+                c.pop("node", None)
+                _alloc["last_failed"] = c
+            raise
+        finally:
+            _alloc["stack"].pop()
+
+    bt.core.SecurityBase.allocate = allocate
+    _alloc["installed"] = True
+
+
+def take_failed_alloc():
+    c = _alloc["last_failed"]
+    _alloc["last_failed"] = None
+    _alloc["stack"] = []
+    return c
